@@ -1,11 +1,13 @@
 (* comparison functions for the C19 correspondence cases *)
-From Tola Require Import Py.Base Model.Fragment Model.Scaffold.
+From Tola Require Import Py.Base Model.Fragment Model.Scaffold Model.AsmFormat Corr.AsmFormatCorr.
 
 Inductive case :=
   | CPred (a b : frag) (ov : bool) (ol : option Z) (ab : bool) (gb : option Z)
   (* scan: fragments carry their global index as f_id; observation = list of
      ((frag id, scaffold index), (frag id, scaffold index)) or None *)
-  | CScan (scs : list (list row)) (obs : option (list ((Z * nat) * (Z * nat)))).
+  | CScan (scs : list (list row)) (obs : option (list ((Z * nat) * (Z * nat))))
+  (* one invocation of asm-format (--qc-overlaps): output and STDERR report byte for byte *)
+  | CAsmFormat (o : af_opts) (files : list (str * str)) (stdin : str) (raised : bool) (out err : str).
 
 Definition optZ_eqb := opt_eqb Z.eqb.
 
@@ -25,6 +27,7 @@ Definition check (c : case) : bool :=
       Bool.eqb (overlaps a b) ov && optZ_eqb (overlap_length a b) ol
       && Bool.eqb (abuts a b) ab && optZ_eqb (gap_between a b) gb
   | CScan scs obs => opt_eqb (list_eqb pair_eqb) (scan_ids scs) obs
+  | CAsmFormat o files stdin raised out err => af_check o files stdin raised out err
   end.
 
 Definition show (c : case) :=
@@ -32,4 +35,5 @@ Definition show (c : case) :=
   | CPred a b _ _ _ _ =>
       (Some (overlaps a b, overlap_length a b, abuts a b, gap_between a b), None)
   | CScan scs _ => (None, scan_ids scs)
+  | CAsmFormat _ _ _ _ _ _ => (None, None)
   end.
